@@ -696,6 +696,10 @@ def sp_same_pixel(interp, st, args, kwargs, node):
     return b_and(*[M.s_cmp(ast.Eq(), M.getitem(interp, st, a, (p, q, c), node), M.getitem(interp, st, b, (p, q, c), node)) for c in range(3)])
 
 
+def sp_len_obj(interp, st, args, kwargs, node):
+    return M.sym_len(interp, st, args[0], node)
+
+
 def sp_is_list(interp, st, args, kwargs, node):
     return isinstance(args[0], (SymList, list))
 
@@ -713,6 +717,7 @@ SPEC_FUNCTIONS = {
     "has_field": sp_has_field,
     "has_key": sp_has_key,
     "is_list": sp_is_list,
+    "len_obj": sp_len_obj,
     "same_pixel": sp_same_pixel,
     "n_calls": sp_n_calls,
     "call_receiver": sp_call_receiver,
